@@ -5,9 +5,12 @@ CONSTANTS
   MaxLen = 3
   MaxChunk = 3
   Streams <- AllStreams
+  LiveIds <- Live05
 INIT RInit
 NEXT RNext
 INVARIANT DeliveredIsContract
 INVARIANT BufferIsTail
+INVARIANT NoLineWaiting
 INVARIANT ArgvInBounds
+INVARIANT AbsentParamIsNull
 INVARIANT EofClean
